@@ -27,8 +27,10 @@ inductive Indir
   | unsupported
   | panic
 
-def indirOf : JVal → Indir
-  | .map _ nilAt mapNil ks vs => if nilAt != 0 then .panic else .map mapNil ks vs
+/-- `cfg.samapNilPtrPanics` (here and below): the nil pointer is dereferenced. Off: the panic test is skipped —
+the node of a nil pointer carries `mapNil = true, keys = vals = []`, i.e. it behaves like a nil map. -/
+def indirOf (cfg : LibCfg) : JVal → Indir
+  | .map _ nilAt mapNil ks vs => if nilAt != 0 && cfg.samapNilPtrPanics then .panic else .map mapNil ks vs
   | _ => .unsupported
 
 /-- Result of Get: the node handed out, nothing, unsupported-type error, or panic. -/
@@ -40,15 +42,15 @@ inductive JGet
 deriving Inhabited
 
 /-- stranymap.go:21-35. -/
-def samapGet (j : JVal) (p : List Bytes) : JGet :=
+def samapGet (cfg : LibCfg) (j : JVal) (p : List Bytes) : JGet :=
   match p with
   | [] => .node j
   | k :: rest =>
     match j with
     | .map _ nilAt _ ks vs =>
-      if nilAt != 0 then .panic else
+      if nilAt != 0 && cfg.samapNilPtrPanics then .panic else
       (match JVal.lookup ks vs k with
-       | some x => samapGet x rest
+       | some x => samapGet cfg x rest
        | none => .none)
     | _ => .unsupported
 
@@ -60,7 +62,7 @@ def samapCmp (cfg : LibCfg) (j : JVal) (p : List Bytes) (op : Op) (right : Seg) 
   | k :: rest =>
     match j with
     | .map _ nilAt mapNil ks vs =>
-      if nilAt != 0 then (.panic, false) else
+      if nilAt != 0 && cfg.samapNilPtrPanics then (.panic, false) else
       if mapNil then (.untouched, false) else
       (match JVal.lookup ks vs k with
        | none => (.untouched, false)
@@ -77,24 +79,24 @@ inductive JLc
   | untouched | val (n : Nat) | unsupported | panic
 deriving Repr, DecidableEq, Inhabited
 
-def samapLen (j : JVal) (p : List Bytes) : JLc :=
+def samapLen (cfg : LibCfg) (j : JVal) (p : List Bytes) : JLc :=
   match p with
   | [] =>
     (match j with
-     | .map _ nilAt _ ks _ => if nilAt != 0 then .panic else .val ks.length
+     | .map _ nilAt _ ks _ => if nilAt != 0 && cfg.samapNilPtrPanics then .panic else .val ks.length
      | .leaf s =>
        if s.kind.family == .text then
          (match s.v with
-          | .nilptr => .panic
+          | .nilptr => if cfg.samapNilPtrPanics then .panic else .untouched
           | v => .val (elemText v).length)
        else .untouched
      | _ => .untouched)
   | k :: rest =>
     match j with
     | .map _ nilAt _ ks vs =>
-      if nilAt != 0 then .panic else
+      if nilAt != 0 && cfg.samapNilPtrPanics then .panic else
       (match JVal.lookup ks vs k with
-       | some x => samapLen x rest
+       | some x => samapLen cfg x rest
        | none => .untouched)
     | _ => .unsupported
 
@@ -105,7 +107,7 @@ def samapCap (cfg : LibCfg) (j : JVal) (p : List Bytes) : JLc :=
      | .leaf s =>
        if s.kind == .bytes then
          (match s.v with
-          | .nilptr => .panic
+          | .nilptr => if cfg.samapNilPtrPanics then .panic else .untouched
           | .bytes _ _ c => .val c
           | _ => .untouched)
        else .untouched
@@ -113,9 +115,9 @@ def samapCap (cfg : LibCfg) (j : JVal) (p : List Bytes) : JLc :=
   | k :: rest =>
     match j with
     | .map _ nilAt _ ks vs =>
-      if nilAt != 0 then .panic else
+      if nilAt != 0 && cfg.samapNilPtrPanics then .panic else
       (match JVal.lookup ks vs k with
-       | some x => if cfg.samapCapIsLen then samapLen x rest else samapCap cfg x rest
+       | some x => if cfg.samapCapIsLen then samapLen cfg x rest else samapCap cfg x rest
        | none => .untouched)
     | _ => .unsupported
 
@@ -134,29 +136,30 @@ def jsetKey : List Bytes → List JVal → Bytes → JVal → List Bytes × List
   | _, _, key, x => ([key], [x])
 
 /-- The value stored at a leaf: strings and bytes are copied into the buffer (the pointer forms are
-dereferenced), everything else is stored as given. -/
-def samapLeafOf (src : Src) : Option JVal :=
+dereferenced), everything else is stored as given. `none`: a nil `*string` / `*[]byte` is dereferenced (panic);
+repaired, it is stored as given. -/
+def samapLeafOf (cfg : LibCfg) (src : Src) : Option JVal :=
   if src.kind.family == .text then
     (match src.v with
-     | .nilptr => none
+     | .nilptr => if cfg.samapNilPtrPanics then none else some (.leaf src)
      | v => some (.leaf { src with isPtr := false, v := v }))
   else some (.leaf src)
 
-def samapSet (j : JVal) (p : List Bytes) (src : Src) : JSet :=
+def samapSet (cfg : LibCfg) (j : JVal) (p : List Bytes) (src : Src) : JSet :=
   match p with
   | [] => .ok j
   | k :: rest =>
     match j with
     | .map hold nilAt mapNil ks vs =>
-      if nilAt != 0 then .panic else
+      if nilAt != 0 && cfg.samapNilPtrPanics then .panic else
       if mapNil then .ok j else
       if rest.isEmpty then
-        (match samapLeafOf src with
+        (match samapLeafOf cfg src with
          | none => .panic
          | some x => let (ks', vs') := jsetKey ks vs k x; .ok (.map hold 0 false ks' vs'))
       else
         let x := (JVal.lookup ks vs k).getD (.map 0 0 false [] [])
-        (match samapSet x rest src with
+        (match samapSet cfg x rest src with
          | .ok x' => let (ks', vs') := jsetKey ks vs k x'; .ok (.map hold 0 false ks' vs')
          | .unsupported x' => let (ks', vs') := jsetKey ks vs k x'; .unsupported (.map hold 0 false ks' vs')
          | .panic => .panic)
@@ -164,26 +167,28 @@ def samapSet (j : JVal) (p : List Bytes) (src : Src) : JSet :=
 
 mutual
 /-- `cpy` (stranymap.go:267-302): nested maps rebuilt in their holding form, strings and bytes
-bufferized, everything else stored as it is. Second component: pointers copied as pointers. -/
-def samapCpy (j : JVal) : Option (JVal × Nat) :=
+bufferized, everything else stored as it is. Second component: pointers copied as pointers. `none`: panic.
+Repaired, a nil pointer to a map is copied as a pointer to an empty map in the same holding form, a nil
+`*string` / `*[]byte` leaf is stored as it is. -/
+def samapCpy (cfg : LibCfg) (j : JVal) : Option (JVal × Nat) :=
   match j with
   | .map hold nilAt _ ks vs =>
-    if nilAt != 0 then none else
-    (match samapCpyList vs with
+    if nilAt != 0 && cfg.samapNilPtrPanics then none else
+    (match samapCpyList cfg vs with
      | some (vs', s) => some (.map hold 0 false ks vs', s)
      | none => none)
   | .leaf s =>
     if s.kind.family == .text then
       (match s.v with
-       | .nilptr => none
+       | .nilptr => if cfg.samapNilPtrPanics then none else some (j, 0)
        | v => some (.leaf { s with isPtr := false, v := v }, 0))
     else some (j, if s.isPtr && !s.v.isNilPtr then 1 else 0)
   | x => some (x, 0)
-def samapCpyList (vs : List JVal) : Option (List JVal × Nat) :=
+def samapCpyList (cfg : LibCfg) (vs : List JVal) : Option (List JVal × Nat) :=
   match vs with
   | [] => some ([], 0)
   | v :: rest =>
-    match samapCpy v, samapCpyList rest with
+    match samapCpy cfg v, samapCpyList cfg rest with
     | some (v', s), some (rest', s') => some (v' :: rest', s + s')
     | _, _ => none
 end
